@@ -206,7 +206,7 @@ def r3(ctx):
             return worst
 
         def exact(m, c, i=i):
-            return all(not any(ex.get(k, 0) for k in ("p", "S", "n")) and ex.get(1, 0) == slack(m, c) for ex in m["excess"][i].values())
+            return m["uniform"] and all(not any(ex.get(k, 0) for k in ("p", "S", "n")) and ex.get(1, 0) == slack(m, c) for ex in m["excess"][i].values())
         sweep(ctx, "C09.R3", "U[%s] real encoded size <= MTU - UDP_HEADER_SIZE for every admitted message list" % tag,
               "no datagram handed to the socket exceeds MTU-28, whatever is queued (the accounted size, by induction over the admissions, never "
               "under-counts the real payload by more than CAP_true - CAP)",
@@ -220,8 +220,8 @@ def r3(ctx):
           lambda m, c: m["MAX_SIZE"] == m["mtu"] - c.UDP, lambda m, c: {"MAX_SIZE": m["MAX_SIZE"]}, cap.setmtu)
     # the size accounted for is the size produced: current_msg_length accumulates len(payload) of every appended message
     m0 = cap.at(MTUS[0])
-    ctx.holds("C09.R3", bpi, "accounting variables %s follow a unit recurrence a' = a + u_case + v*p, identical in both loops" % cap.accounting.vars,
-              "closed form by induction: %s" % {k: v for k, v in m0["steps"].items()})
+    ctx.check(m0["uniform"], "C09.R3", bpi, "accounting variables %s follow one unit recurrence a' = a + u_case + v*p in both loops" % cap.accounting.vars,
+              "both loops feed one message list: if they account differently at least one of them deviates from the real size", witness={k: v for k, v in m0["steps"].items()})
     # class-body defaults == setMTU(default MTU)
     P = ctx.repo.cls("connection:Packet")
     mtu0 = ctx.folder.class_attr(P, "MTU")
